@@ -939,11 +939,29 @@ class Font(BaseObject):
             writer.close()
             writer.setModificationTime()
             if overwritePath is not None:
-                if os.path.isfile(overwritePath):
-                    os.remove(overwritePath)
-                elif os.path.isdir(overwritePath):
-                    shutil.rmtree(overwritePath)
-                shutil.move(path, overwritePath)
+                # put the existing destination aside, move the new UFO in,
+                # then drop what was put aside. if the new UFO can not be
+                # moved in, the destination is put back: a failure must
+                # not leave the destination destroyed.
+                asideDirectory = tempfile.mkdtemp(dir=os.path.dirname(os.path.abspath(overwritePath)))
+                try:
+                    asidePath = None
+                    if os.path.lexists(overwritePath):
+                        asidePath = os.path.join(asideDirectory, os.path.basename(overwritePath))
+                        shutil.move(overwritePath, asidePath)
+                    try:
+                        shutil.move(path, overwritePath)
+                    except Exception:
+                        if asidePath is not None:
+                            # remove whatever part of the new UFO arrived
+                            if os.path.isdir(overwritePath) and not os.path.islink(overwritePath):
+                                shutil.rmtree(overwritePath, ignore_errors=True)
+                            elif os.path.lexists(overwritePath):
+                                os.remove(overwritePath)
+                            shutil.move(asidePath, overwritePath)
+                        raise
+                finally:
+                    shutil.rmtree(asideDirectory, ignore_errors=True)
         finally:
             # if down converting in place or overwriting, handle the temp
             if overwritePath is not None:
